@@ -148,6 +148,17 @@ def handle (j : Json) : Except String Json := do
     let r := analyzeAccumulator sl bias xmin xmax
     let bounds := (sl.zip bias).map fun (ws, b) => ratToJson (chanBound ws b xmin xmax)
     pure <| Json.mkObj [("result", estToJson r), ("chan_bounds", Json.arr bounds.toArray)]
+  | "from_sample" =>
+    -- analyze_accumulator_from_sample(mode="conservative"): samples[s] = the layer's input for sample s
+    let sl ← (← (← j.getObjVal? "slices").getArr?).toList.mapM fun a => do
+      (← a.getArr?).toList.mapM ratOfJson
+    let sm ← (← (← j.getObjVal? "samples").getArr?).toList.mapM fun a => do
+      (← a.getArr?).toList.mapM ratOfJson
+    let bias ← getRatList j "bias"
+    let single ← getBool j "single"
+    let r := fromSampleRange single sm
+    pure <| Json.mkObj [("result", estToJson (analyzeFromSample single sm sl bias)),
+                        ("range", Json.arr #[ratToJson r.1, ratToJson r.2])]
   | "populate" =>
     let q ← qrecOfJson (← j.getObjVal? "q")
     pure <| Json.mkObj ((populate q).map fun (k, v) => (k, Json.num v))
